@@ -17,21 +17,34 @@ META = {
     'title': 'Unknown keys are ignored, rejected or captured exactly as configured',
     'level': 'proof',
     'technique': 'Coq proof (cache invariant preserved by every load and lifted over arbitrary histories; counting argument for '
-                 'the v1 fast path) on a hand-written Gallina model + differential correspondence with the implementation',
+                 'the v1 fast path; fold of Meta binds; generation histories; dump composed with the skip rules) on a hand-written '
+                 'Gallina model + differential correspondence with the implementation',
     'design_ref': 'DESIGN.md section 4 C10',
     'theorems': ['C10_spec_partial', 'C10_spec_repeat_partial', 'C10_cache_invariant', 'C10_raise', 'C10_mapped_unaffected',
                  'C10_catchall_exact', 'C10_catchall_rt', 'C10_v1_spec_partial', 'C10_v1_count', 'C10_v1_catchall_rt',
-                 'C10_v1_refuted_shared_key', 'C10_refuted_sentinel_key', 'C10_refuted_alone_first'],
+                 'C10_v1_refuted_shared_key', 'C10_refuted_sentinel_key', 'C10_refuted_alone_first',
+                 'C10_cfg_last_wins', 'C10_cfg_valid', 'C10_cfg_spelling', 'C10_cfg_v1_partial', 'C10_cfg_v0_partial',
+                 'C10_gen_history', 'C10_gen_count_independent', 'C10_gen_history_spec_partial', 'C10_gen_never_fails',
+                 'C10_multi_root_partial', 'C10_gen_refuted_default_factory',
+                 'C10_dump_catch_exact', 'C10_dump_skip_if_irrelevant', 'C10_dump_catch_rt_v1', 'C10_dump_catch_rt_v0'],
     'tables': [],
     'level_text': ('Theorems proved in Coq for ALL class configurations (policy x CatchAll x tag key), ALL documents and ALL load '
                    'histories (any sequence of documents through the shared json_to_field cache, hence every repetition count n >= 1) '
                    'about an executable model of the default-engine unknown-key branch with its cache as state, of the v1 '
-                   'len(o) != i fast path, and of the CatchAll re-emission in the dumper; two regions are excluded and refuted with '
-                   'witnesses that replay on the implementation (open findings F19, F41).  The model is re-validated against the '
-                   'implementation on every run.'),
+                   'len(o) != i fast path, and of the CatchAll re-emission in the dumper; for EVERY sequence of Meta binds (inner Meta, '
+                   'LoadMeta, DumpMeta; any order, number and spelling) the policy the generator reads is the last explicitly written '
+                   'one, normalised; for ALL histories of loader generations and loads across roots the outcome of a load does not '
+                   'depend on the generations that preceded it (v1; default engine: across roots when no ignore-policy load precedes a '
+                   'raise-policy load); for ALL dump settings (exclude, skip_defaults, Meta.skip_if, skip_defaults_if, per-field SkipIf, '
+                   'key transform) and all truth tables of the conditions the CatchAll branch writes exactly the captured pairs unless the '
+                   'CatchAll FIELD is excluded / skipped as a defaulted field.  Four regions are excluded and refuted with witnesses that '
+                   'replay on the implementation (open findings F19, F41, F10-C10-alone-first, F91).  The model is re-validated against '
+                   'the implementation on every run.'),
     'level_note': ('Trusted: Coq kernel + vm_compute; the hand-written model (one class level; a nested dataclass is the abstract '
                    'per-field conversion `conv`, composition over nesting is exercised by the harness at depth 2, not proved); key '
-                   'resolution is StrConv.resolve_key_v0 (validated by C08). Python dict semantics are modelled, not proved.'),
+                   'resolution is StrConv.resolve_key_v0 (validated by C08). Python dict semantics are modelled, not proved. The truth of '
+                   'a skip condition on a value is a parameter of the dump model (every operator / value: C11); the instance the '
+                   'constructor builds from the keyword arguments is a hypothesis of the load-then-dump theorems (C09).'),
     'rule': ('classes: 1-3 int fields with canonical snake_case names (+ optional nested dataclass, depth <= 2; v1: Alias / AliasPath '
              'fields), policy in {ignore, raise, CatchAll, CatchAll with default}, optional Meta.tag with tag_key in {__tag__, kind, Type}; '
              'documents: complete (defaulted fields sometimes omitted; default engine: documented casings of the field names) plus 0-3 '
@@ -39,12 +52,25 @@ META = {
              'every field: decided independently when the separator-free lower-cased forms differ, by the Coq resolution model otherwise) / '
              'the tag key / non-identifier keys / the internal sentinel; histories of 1-3 loads (same document repeated, or two documents '
              'interleaved), in 40 % preceded by a dump of a hand-built instance; v1 fields with 1-3 alternative AliasPaths / 1-3 aliases; '
-             'entry points fromdict / fromlist / JSONWizard.from_dict / from_json.  Non-trivial = some level has an extra key; distinct = distinct (class spec, history).'),
-    'trusted_base': ['model coq/model/FieldsUnknown.v transcribes loaders.py:676-760, v1/loaders.py:1045-1260, dumpers.py:470-480 '
-                     '(validated by correspondence)'],
+             'entry points fromdict / fromlist / JSONWizard.from_dict / from_json.  Stream A (half of the cases): the policy is configured '
+             'by a PROGRAM of 1-4 Meta binds (JSONPyWizard implicit DumpMeta, inner Meta, LoadMeta, DumpMeta; each writing or not '
+             'v1_on_unknown_key / raise_on_unknown_json_key in a random spelling: KeyAction member, name in any case, None, \'\', '
+             'bool / int / str truthiness), plus a systematic block RAISE x every spelling x written by the 1st / 2nd / 3rd bind x base.  '
+             'Stream B: one class (CatchAll none / required / default / default_factory at any place) generated alone and nested '
+             'under 1-2 roots at plain / list / dict / Optional position, 3-6 operations, every order of first use (systematic for '
+             'engine x CatchAll kind), roots with or without the raise policy.  Stream C: one class with a CatchAll field x '
+             'Meta.skip_if / skip_defaults_if / skip_defaults / key transform / SkipIf on ordinary fields and on the CatchAll field x '
+             'asdict(exclude, skip_defaults) calls; every operator of the condition table at every placement (systematic) with values '
+             'None/bool/int/str/list/dict/the captured dict.  Non-trivial = some level has an extra key; distinct = distinct (class spec, history).'),
+    'trusted_base': ['model coq/model/FieldsUnknown.v transcribes loaders.py:676-760, v1/loaders.py:960-1290 (generation: init-field table, '
+                     'CatchAll index, positional call), dumpers.py:420-490 (skip flags and the CatchAll branch), bases_meta.py:124-221 '
+                     '(bind_to), bases.py:81-98 (__and__), utils/type_conv.py:185-244 (as_enum) (validated by correspondence)'],
     'assumptions': ['a class has either the raise policy or CatchAll fields, not both (the property lists them as alternatives)',
                     'default key transform (to_snake_case) for the default engine; v1_key_case unset for v1',
-                    'document keys are str; ASCII upper-case letters only (non-ASCII keys are lower-case)'],
+                    'document keys are str; ASCII upper-case letters only (non-ASCII keys are lower-case)',
+                    'Meta binds happen before the first load / dump of the class (a later bind does not reach a cached loader: C06/C07)',
+                    'the CatchAll FIELD is subject to the field-level rules of C11: exclude, and the skip-defaults rule for a defaulted field '
+                    '(value equal to the default, or Meta.skip_defaults_if true on the captured dict) — recorded interpretation'],
 }
 
 RESERVED = {'o', 'cls', 'field', 'fields', 'i', 'e', 'v1', 'tp', 'result', 'config', 'hooks', 'exclude', 'self', 'k', 'v',
@@ -121,8 +147,10 @@ def gen_level(r, engine, depth, counter, raise_, root):
 
 
 def ordered_fields(spec):
-    """field_to_parser / dataclass order produced by the runner's build(): required fields, the CatchAll field without
-    default, defaulted fields, the CatchAll field with default"""
+    """field_to_parser / dataclass order produced by the runner's build(): spec['order'] when given, else required fields,
+    the CatchAll field without default, defaulted fields, the CatchAll field with default"""
+    if spec.get('order'):
+        return list(spec['order'])
     req = [f['name'] for f in spec['fields'] if f['default'] is None]
     opt = [f['name'] for f in spec['fields'] if f['default'] is not None]
     c = spec['catch']
@@ -158,6 +186,117 @@ def v1_tag(spec):
 def in_f19_region(spec):
     ks = [k for f in spec['fields'] for k in set(field_keys(spec, f))]
     return spec['engine'] == 'v1' and len(ks) != len(set(ks))
+
+
+# --------------------------------------------------------------------------- configuration entry points (region A)
+ACTION_SPELLINGS = {'RAISE': [{'enum': 'RAISE'}, {'str': 'RAISE'}, {'str': 'raise'}, {'str': 'Raise'}],
+                    'IGNORE': [{'enum': 'IGNORE'}, {'str': 'IGNORE'}, {'str': 'ignore'}, {'none': 1}, {'str': ''}],
+                    'WARN': [{'enum': 'WARN'}, {'str': 'warn'}, {'str': 'WARN'}]}
+RAISE_SPELLINGS = {True: [{'bool': True}, {'int': 1}, {'str': 'yes'}, {'int': 7}],
+                   False: [{'bool': False}, {'int': 0}, {'str': ''}, {'none': 1}]}
+
+
+def ref_action(sp):
+    """documented normalisation of a v1_on_unknown_key spelling (independent of the library): KeyAction member or its name in
+    any letter case (spaces as underscores); None and '' mean unset"""
+    if 'enum' in sp:
+        return sp['enum']
+    if 'str' in sp and sp['str'] != '':
+        return sp['str'].upper().replace(' ', '_')
+    return None
+
+
+def ref_truthy(sp):
+    return bool(sp.get('bool', False)) or bool(sp.get('int', 0)) or bool(sp.get('str', ''))
+
+
+def ref_effective(ops):
+    """(v1 policy name or None, raise flag): the LAST explicitly written value of each setting wins"""
+    act, rz = None, False
+    for op in ops:
+        if 'action' in op:
+            act = ref_action(op['action'])
+        if 'raise' in op:
+            rz = ref_truthy(op['raise'])
+    return act, rz
+
+
+def gen_binds(r, engine, want_raise):
+    """a bind program in execution order: [JSONPyWizard's implicit DumpMeta], [inner Meta], LoadMeta / DumpMeta binds; every
+    Meta that can carry load settings writes each of the two policy settings or not, in a random spelling; a final bind
+    restores the wanted policy when the random program configured the other one"""
+    base = r.choice(['plain', 'plain', 'wizard', 'wizard', 'pywizard'])
+    ops = []
+    if base == 'pywizard':
+        ops.append({'via': 'implicit'})
+    if base != 'plain' and r.random() < 0.65:
+        ops.append({'via': 'inner'})
+    for _ in range(r.choice([0, 1, 1, 2, 3]) if ops else r.choice([1, 1, 2, 3])):
+        ops.append({'via': r.choice(['load', 'load', 'load', 'dump'])})
+    if not any(op['via'] in ('inner', 'load') for op in ops):
+        ops.append({'via': 'load'})
+    for op in ops:
+        if op['via'] in ('inner', 'load'):
+            if r.random() < (0.6 if engine == 'v1' else 0.25):
+                op['action'] = r.choice(ACTION_SPELLINGS[r.choice(['RAISE', 'RAISE', 'IGNORE', 'WARN'])])
+            if r.random() < (0.6 if engine == 'v0' else 0.25):
+                op['raise'] = r.choice(RAISE_SPELLINGS[r.random() < 0.5])
+    act, rz = ref_effective(ops)
+    have = (act == 'RAISE') if engine == 'v1' else rz
+    if have != want_raise:
+        fix = {'via': 'load'}
+        if engine == 'v1':
+            fix['action'] = r.choice(ACTION_SPELLINGS['RAISE' if want_raise else r.choice(['IGNORE', 'WARN'])])
+        else:
+            fix['raise'] = r.choice(RAISE_SPELLINGS[want_raise])
+        ops.append(fix)
+    return {'base': base, 'ops': ops}
+
+
+def systematic_binds():
+    """entry point x spelling x bind position, for the RAISE policy of each engine: the policy is written by the 1st, 2nd or 3rd
+    bind, in every spelling, after binds that write nothing / the opposite policy"""
+    out = []
+    for engine in ('v0', 'v1'):
+        spellings = ACTION_SPELLINGS['RAISE'] if engine == 'v1' else RAISE_SPELLINGS[True]
+        key = 'action' if engine == 'v1' else 'raise'
+        opposite = ({'str': 'ignore'}, {'enum': 'IGNORE'}) if engine == 'v1' else ({'bool': False}, {'int': 0})
+        n = 0
+        for base in ('plain', 'wizard', 'pywizard'):
+            for pos in (0, 1, 2):
+                for sp in spellings:
+                    n += 1
+                    ops = [{'via': 'implicit'}] if base == 'pywizard' else []
+                    prior = []
+                    if pos >= 1:
+                        prior.append({'via': 'inner'} if base != 'plain' and n % 2 else {'via': 'load'})
+                    if pos >= 2:
+                        prior.append({'via': 'dump'} if n % 3 == 0 else {'via': 'load', key: opposite[n % 2]})
+                    if pos >= 1 and n % 4 == 0 and prior[0]['via'] != 'dump':
+                        prior[0][key] = opposite[n % 2]
+                    final = {'via': 'inner' if (pos == 0 and base != 'plain' and n % 2) else 'load', key: sp}
+                    out.append((engine, {'base': base, 'ops': ops + prior + [final]}))
+    return out
+
+
+def finish_binds(spec):
+    """engine / tag settings travel in the first Meta that can carry load settings"""
+    first = next(op for op in spec['binds']['ops'] if op['via'] in ('inner', 'load'))
+    extra = {}
+    if spec['engine'] == 'v1':
+        extra['v1'] = True
+    if spec.get('tag'):
+        extra['tag'] = spec['tag']['tag']
+        if spec['tag'].get('tag_key'):
+            extra['tag_key'] = spec['tag']['tag_key']
+    first['extra'] = extra
+
+    def down(sp):
+        for f in sp['fields']:
+            if f['kind'] == 'nested':
+                f['cls']['rootbinds'] = spec['binds']
+                down(f['cls'])
+    down(spec)
 
 
 # --------------------------------------------------------------------------- classification (reference)
@@ -390,7 +529,9 @@ def impl_view(res_view, spec):
 def dump_level(dump, spec, path):
     d = dump
     for name in path:
-        d = d.get(ref_casing(name, 'Camel')) if isinstance(d, dict) else None
+        if not isinstance(d, dict):
+            return None
+        d = d.get(ref_casing(name, 'Camel')) if ref_casing(name, 'Camel') in d else d.get(name)
     return d
 
 
@@ -522,6 +663,50 @@ Definition run1 tbl c (docs : list (doc pstr)) : pstr :=
   join (S "|") (map (fun d => show_out (v1_load (tconv tbl) c d)) docs).
 Definition run0p tbl cpre (dpre : doc pstr) c (docs : list (doc pstr)) : pstr :=
   join (S "|") (map show_out (v0_run (tconv tbl) c (fst (v0_load (tconv tbl) cpre (init_cache cpre) dpre)) docs)).
+Definition cfg1 (bs : list metadict) (c : v1cls) : v1cls :=
+  match v1_configured c bs with Some c' => c' | None => v1_with_policy c PWarn end.
+Definition cfg0 (bs : list metadict) (c : v0cls) : v0cls :=
+  match v0_configured c bs with Some c' => c' | None => c end.
+Definition show_gout (g : gout pstr pstr) : pstr :=
+  match g with GOut o => show_out o | GTypeError p => S "T:" ++ hex p | GValueError => S "G:" end.
+Definition rung (src : v1src) (pols : list v1policy) (ops : list (nat * doc pstr)) : pstr :=
+  join (S "|") (map show_gout (g_run (tconv []) src (fun r => nth r pols PIgnore) (g_init src)
+                                     (map (fun ro => OpLoad (fst ro) (snd ro)) ops))).
+Fixpoint op_run0 (c : v0cls) (st : cache) (docs : list (doc pstr)) : cache * list pstr :=
+  match docs with
+  | [] => (st, [])
+  | d :: r => let '(st1, o) := v0_load (tconv []) c st d in
+              match o with
+              | OKCall _ => let '(st2, os) := op_run0 c st1 r in (st2, show_out o :: os)
+              | Fail _ => (st1, [show_out o])
+              end
+  end.
+Fixpoint run0m_go (cs : list v0cls) (c0 : v0cls) (st : cache) (ops : list (nat * list (doc pstr))) : list pstr :=
+  match ops with
+  | [] => []
+  | (r, docs) :: rest => let '(st1, os) := op_run0 (nth r cs c0) st docs in join (S ";") os :: run0m_go cs c0 st1 rest
+  end.
+Definition run0m (cs : list v0cls) (ops : list (nat * list (doc pstr))) : pstr :=
+  match cs with [] => S "" | c0 :: _ => join (S "|") (run0m_go cs c0 (init_cache c0) ops) end.
+Definition ctest_tbl (tbl : list ((nat * pstr) * option bool)) (c : nat) (f : pstr) : option bool :=
+  match find (fun e => Nat.eqb (fst (fst e)) c && pstr_eqb (snd (fst e)) f) tbl with Some e => snd e | None => None end.
+Definition show_xval (v : xval pstr pstr) : pstr :=
+  match v with
+  | XField (KV x) => S "F" ++ hex x
+  | XField (KCatch _) => S "F" ++ hex (S "null")
+  | XRaw r => S "R" ++ hex r
+  | XTag t => S "T" ++ hex t
+  end.
+Definition rundump (tbl : list ((nat * pstr) * option bool)) (isd names : list pstr) (dkeys : list (pstr * pstr)) (cf : pstr)
+           (dflts : list pstr) (skip_if sdi : option nat) (own : list (pstr * nat)) (exclude : option (list pstr)) (sd : bool)
+           (inst : list (pstr * kwval pstr pstr)) : pstr :=
+  let cfg := {| dc_fields := names; dc_key := fun f => match assoc f dkeys with Some k => k | None => f end;
+                dc_catch := Some cf; dc_has_default := fun f => mem_str f dflts; dc_skip_if := skip_if;
+                dc_skip_defaults_if := sdi; dc_field_skip := fun f => assoc f own; dc_tag := None |} in
+  match dump_cfg (ctest_tbl tbl) (fun f => mem_str f isd) cfg {| da_exclude := exclude; da_skip_defaults := sd |} inst with
+  | None => S "ERR"
+  | Some pairs => join (S ",") (map (fun kv => hex (fst kv) ++ S "=" ++ show_xval (snd kv)) (to_dict pairs))
+  end.
 Definition res0 (fs : list pstr) (k : pstr) : pstr :=
   match resolve_key_v0 fs k with Some f => S "S" ++ hex f | None => S "N" end.
 '''
@@ -531,17 +716,42 @@ def coq_opt(x):
     return 'None' if x is None else '(Some %s)' % x
 
 
-def coq_cls(spec):
+def coq_pyv(sp):
+    if 'enum' in sp:
+        return '(PvAction %s)' % {'RAISE': 'PRaise', 'IGNORE': 'PIgnore', 'WARN': 'PWarn'}[sp['enum']]
+    if 'str' in sp:
+        return '(PvStr %s)' % coq_str(sp['str'])
+    if 'bool' in sp:
+        return '(PvBool %s)' % ('true' if sp['bool'] else 'false')
+    if 'int' in sp:
+        return '(PvInt %d%%N)' % sp['int']
+    return 'PvNone'
+
+
+def coq_binds(binds):
+    return coq_list(['{| md_action := %s; md_raise := %s |}' % (coq_opt(coq_pyv(op['action']) if 'action' in op else None),
+                                                                 coq_opt(coq_pyv(op['raise']) if 'raise' in op else None))
+                     for op in binds['ops']])
+
+
+def coq_cls(spec, configured=True):
+    """the class as the model sees it; when the case has a bind program the policy is COMPUTED by the model from the binds
+    (FieldsUnknown.v1_configured / v0_configured), for nested levels from the root's binds (cascade)"""
     c = spec['catch']
     catch = coq_opt('(%s, %s)' % (coq_str(c['name']), 'true' if c['default'] else 'false') if c else None)
+    binds = (spec.get('binds') or spec.get('rootbinds')) if configured else None
     if spec['engine'] == 'v0':
-        return ('{| c_name := %s; c_fields := %s; c_catch := %s; c_tag := %s; c_raise := %s |}' %
-                (coq_str(spec['name']), coq_list([coq_str(n) for n in ordered_fields(spec)]), catch,
-                 coq_opt(coq_str(spec['tag']['tag_key']) if spec['tag'] else None), 'true' if spec['raise'] else 'false'))
+        t = ('{| c_name := %s; c_fields := %s; c_catch := %s; c_tag := %s; c_raise := %s |}' %
+             (coq_str(spec['name']), coq_list([coq_str(n) for n in ordered_fields(spec)]), catch,
+              coq_opt(coq_str(spec['tag']['tag_key']) if spec['tag'] else None),
+              'false' if binds else ('true' if spec['raise'] else 'false')))
+        return '(cfg0 %s %s)' % (coq_binds(binds), t) if binds else t
     fs = ['(%s, %s)' % (coq_str(f['name']), coq_list([coq_str(k) for k in field_keys(spec, f)])) for f in spec['fields']]
-    return ('{| d_name := %s; d_fields := %s; d_catch := %s; d_tag := %s; d_policy := %s |}' %
-            (coq_str(spec['name']), coq_list(fs), catch,
-             coq_opt(coq_str(spec['tag']['tag_key']) if v1_tag(spec) else None), 'PRaise' if spec['raise'] else 'PIgnore'))
+    t = ('{| d_name := %s; d_fields := %s; d_catch := %s; d_tag := %s; d_policy := %s |}' %
+         (coq_str(spec['name']), coq_list(fs), catch,
+          coq_opt(coq_str(spec['tag']['tag_key']) if v1_tag(spec) else None),
+          'PIgnore' if binds else ('PRaise' if spec['raise'] else 'PIgnore')))
+    return '(cfg1 %s %s)' % (coq_binds(binds), t) if binds else t
 
 
 def raw_of(v):
@@ -642,16 +852,485 @@ def impl_compare_view(res, spec):
     return {'err': res.get('err')}
 
 
+# --------------------------------------------------------------------------- region B: generations
+POSITIONS = ['plain', 'list', 'dict', 'opt']
+
+
+def gen_world(r, counter, forced=None):
+    """ONE class whose loader is generated several times: alone and nested under 1-2 roots (plain / list / dict / Optional
+    position), in every order of first use; CatchAll field (none / required / plain default / default_factory) at a random
+    place among the fields of its kind"""
+    counter[0] += 1
+    engine = forced['engine'] if forced else r.choice(['v0', 'v1'])
+    used = set()
+    inner = {'name': 'G%d' % counter[0], 'engine': engine, 'raise': False, 'tag': None, 'catch': None, 'fields': []}
+    for _ in range(r.randint(1, 3)):
+        f = {'name': gen_name(r, used), 'kind': 'int', 'default': (-1 if r.random() < 0.45 else None), 'aliases': None, 'path': None}
+        if engine == 'v1' and r.random() < 0.15:
+            f['aliases'] = [gen_key(r, used) for _ in range(r.choice([1, 2]))]
+        inner['fields'].append(f)
+    req = [f['name'] for f in inner['fields'] if f['default'] is None]
+    opt = [f['name'] for f in inner['fields'] if f['default'] is not None]
+    kind = forced['kind'] if forced else r.choice(['none', 'none', 'required', 'default', 'default', 'factory'])
+    if kind != 'none':
+        cname = r.choice(['extras', 'rest', 'unknown_stuff'])
+        inner['catch'] = {'name': cname, 'default': kind == 'default', 'factory': kind == 'factory'}
+        (req if kind == 'required' else opt).insert(r.randint(0, len(req if kind == 'required' else opt)), cname)
+    inner['order'] = req + opt
+    roots = []
+    for i in range(2 if forced else r.choice([1, 2, 2])):
+        roots.append({'name': 'R%d_%d' % (counter[0], i), 'pos': r.choice(POSITIONS),
+                      'raise': (inner['catch'] is None and r.random() < 0.5)})
+    return {'inner': inner, 'roots': roots, 'ops': []}
+
+
+def gen_world_ops(r, w, pending, order=None):
+    inner = w['inner']
+    ids = [-1] + list(range(len(w['roots'])))
+    r.shuffle(ids)                                  # order of FIRST use
+    if order is not None:
+        ids = list(order)
+    elif r.random() < 0.25:
+        ids = [i for i in ids if i >= 0] or ids     # never used alone
+    seq = list(ids) + [r.choice(ids) for _ in range(r.choice([0, 1, 2, 3]))]
+    pool = []
+    for _ in range(r.choice([1, 2, 2])):
+        d = add_extras(r, inner, gen_base_doc(r, inner), pending, [])
+        d.pop(SENTINEL, None)
+        pool.append(d)
+    pool.append(gen_base_doc(r, inner))
+    for i in seq:
+        n = 1 if (i < 0 or w['roots'][i]['pos'] in ('plain', 'opt')) else r.choice([1, 2, 2])
+        w['ops'].append({'root': i, 'docs': [copy.deepcopy(r.choice(pool)) for _ in range(n)]})
+
+
+def root_policy(w, i):
+    return i >= 0 and bool(w['roots'][i]['raise'])
+
+
+def in_f91_region(spec):
+    """v1, CatchAll field with a default_factory declared after a defaulted field"""
+    c = spec.get('catch')
+    if spec['engine'] != 'v1' or not c or not c.get('factory'):
+        return False
+    order = ordered_fields(spec)
+    dflt = {f['name'] for f in spec['fields'] if f['default'] is not None}
+    return any(n in dflt for n in order[:order.index(c['name'])])
+
+
+def coq_src(spec):
+    c = spec['catch']
+    by = {f['name']: f for f in spec['fields']}
+    items = []
+    for n in ordered_fields(spec):
+        if c and n == c['name']:
+            items.append('{| if_name := %s; if_keys := [%s]; if_default := %s |}' %
+                         (coq_str(n), coq_str(n), 'true' if (c['default'] or c.get('factory')) else 'false'))
+        else:
+            f = by[n]
+            items.append('{| if_name := %s; if_keys := %s; if_default := %s |}' %
+                         (coq_str(n), coq_list([coq_str(k) for k in field_keys(spec, f)]), 'true' if f['default'] is not None else 'false'))
+    return ('{| s_name := %s; s_init := %s; s_catch := %s; s_tag := None |}' %
+            (coq_str(spec['name']), coq_list(items),
+             coq_opt('(%s, %s)' % (coq_str(c['name']), 'true' if c['default'] else 'false') if c else None)))
+
+
+def gen_model_expr(w, ms):
+    inner = w['inner']
+    pols = ['PIgnore'] + ['PRaise' if rt['raise'] else 'PIgnore' for rt in w['roots']]
+    if inner['engine'] == 'v1':
+        ops = []
+        for op in w['ops']:
+            flat, _ = level_docs(inner, op['docs'], ms)
+            for items in flat:
+                ops.append('(%d, %s)' % (op['root'] + 1, coq_list(['(%s, %s)' % (coq_str(k), coq_str(v)) for k, v in items])))
+        return 'rung %s %s %s' % (coq_src(inner), coq_list(pols), coq_list(ops))
+    classes = [coq_cls(dict(inner, **{'raise': p == 'PRaise'}), configured=False) for p in pols]
+    ops = []
+    for op in w['ops']:
+        flat, _ = level_docs(inner, op['docs'], ms)
+        ops.append('(%d, %s)' % (op['root'] + 1, coq_docs(flat)))
+    return 'run0m %s %s' % (coq_list(classes), coq_list(ops))
+
+
+def parse_gout(s):
+    if s.startswith('T:'):
+        return {'err': 'TypeError', 'param': bytes.fromhex(s[2:]).decode()}
+    if s.startswith('G:'):
+        return {'err': 'ValueError'}
+    return parse_out(s) if not s.startswith('U:') else parse_unknown(s)
+
+
+def check_gen_world(ctx, w, results, mline, ms, resolved):
+    """direct predicate (every inner load = the reference of a PRISTINE class under its root's policy) + correspondence"""
+    inner = w['inner']
+    v1 = inner['engine'] == 'v1'
+    seen_lax = set()          # unknown keys negatively cached by loads under an ignore-policy generation (default engine)
+    # model outcomes: v1 one per inner doc (pure, all evaluated); v0 per op, aborted at the first failure
+    if mline is not None:
+        if v1:
+            flat_out = mline.split('|') if mline else []
+            it = iter(flat_out)
+            mops = [[next(it) for _ in op['docs']] for op in w['ops']]
+        else:
+            mops = [seg.split(';') for seg in mline.split('|')]
+    sig = json.dumps({k: w[k] for k in ('inner', 'roots')}, sort_keys=True)
+    for oi, (op, res) in enumerate(zip(w['ops'], results)):
+        spec = dict(inner, **{'raise': root_policy(w, op['root'])})
+        exp, first_bad = [], None
+        for j, d in enumerate(op['docs']):
+            try:
+                exp.append(ref_load(spec, d, ms))
+            except RefError as e:
+                first_bad = (j, e)
+                break
+        nontriv = any(level_unknown(spec, d, ms) for d in op['docs'])
+        ctx.count(1, key='g:%s|%d|%s' % (sig, oi, json.dumps(w['ops'][:oi + 1])), nontrivial=nontriv)
+        ctx.hist('gen_outcome', inner['engine'] + '/' + ('ok' if 'ok' in res else res.get('err', '?')))
+        bad = None
+        if not res.get('input_unchanged', True):
+            bad = 'the input document was mutated'
+        elif first_bad is not None:
+            j, e = first_bad
+            u = level_unknown(spec, op['docs'][j], ms)
+            if 'ok' in res:
+                bad = 'unknown keys %r of class %s under the raise policy of the root, but the load succeeded' % (u, inner['name'])
+            elif res.get('err') != 'UnknownKeysError':
+                bad = 'unknown keys %r under the raise policy, but %s was raised: %s' % (u, res.get('err'), res.get('msg'))
+            elif not res.get('renders'):
+                bad = 'UnknownKeysError message cannot be rendered'
+            elif not (res.get('class_name') == inner['name'] and res.get('unknown_keys') and set(res['unknown_keys']) <= set(u)):
+                bad = 'UnknownKeysError(%r, class %s) names no unknown key of %r' % (res.get('unknown_keys'), res.get('class_name'), u)
+        elif 'ok' not in res:
+            bad = 'expected a successful load, got %s: %s' % (res.get('err'), res.get('msg'))
+        else:
+            got = [impl_view(v, inner) for v in res['ok']]
+            if len(got) != len(exp):
+                bad = 'loaded %d nested instances, expected %d' % (len(got), len(exp))
+            for g, x, d, dump in zip(got, exp, op['docs'], res.get('dumps') or []):
+                if bad:
+                    break
+                if json.dumps(g.get('fields'), sort_keys=True) != json.dumps(x['fields'], sort_keys=True):
+                    bad = 'mapped fields %r, expected %r (document %s)' % (g.get('fields'), x['fields'], json.dumps(d)[:150])
+                elif (g.get('catch') is None) != (x['catch'] is None):
+                    bad = 'catch-all %r, expected %r' % (g.get('catch'), x['catch'])
+                elif x['catch'] is not None and 'default' in x['catch'] and g['catch'] != x['catch']:
+                    bad = 'catch-all %r, expected the default to be kept' % (g['catch'],)
+                elif x['catch'] is not None and 'items' in x['catch'] and (
+                        'items' not in g['catch'] or sorted(map(json.dumps, g['catch']['items'])) != sorted(map(json.dumps, x['catch']['items']))):
+                    bad = 'catch-all %r, expected exactly %r (document %s)' % (g['catch'], x['catch'], json.dumps(d)[:150])
+                else:
+                    bad = check_dump(inner, x, dump)
+        # regions
+        reg = None
+        if in_f91_region(inner):
+            reg = 'F91-v1-catchall-default-factory-position'
+        elif not v1 and spec['raise'] and first_bad is not None:
+            u = set(level_unknown(spec, op['docs'][first_bad[0]], ms))
+            if u and u <= seen_lax:
+                reg = 'F10-C10-alone-first-negative-cache'
+        if bad:
+            if reg and ctx.is_open_region(reg):
+                ctx.hist('known_region', reg)
+            else:
+                ctx.violation('%s engine, class %s generated for %d roots (%s), operation %d of the history (through %s): %s' %
+                              (inner['engine'], inner['name'], len(w['roots']), ','.join(rt['pos'] for rt in w['roots']), oi + 1,
+                               'the class alone' if op['root'] < 0 else 'root %d' % op['root'], bad),
+                              {'kind': 'gen', 'world': w, 'index': oi,
+                               'model_says': [[list(k[0]), k[1], v] for k, v in ms.items() if k[0] == tuple(ordered_fields(inner))]})
+        # correspondence
+        if mline is not None and not (reg in resolved):
+            ctx.traces_validated += 1
+            mo = [parse_gout(x) for x in mops[oi]]
+            same = True
+            if in_f91_region(inner):
+                mbad = next((m for m in mo if 'ok' not in m), None)
+                # (nested under a v1 root the bare TypeError of the inner constructor call is wrapped into ParseError by the root's field loop)
+                same = (mbad is None and 'ok' in res) or (mbad is not None and res.get('err') in ('TypeError', 'ParseError'))
+            else:
+                mfail = next((m for m in mo if 'ok' not in m), None)
+                if mfail is not None:
+                    io = impl_compare_view(res, inner) if 'ok' not in res else {'ok': 1}
+                    same = (mfail == io) if mfail.get('err') == 'UnknownKeysError' else (mfail.get('err') == io.get('err'))
+                elif 'ok' not in res:
+                    same = False
+                else:
+                    mv = [model_view(m, inner, {}, d) for m, d in zip(mo, op['docs'])]
+                    same = json.dumps(mv, sort_keys=True) == json.dumps([impl_view(v, inner) for v in res['ok']], sort_keys=True)
+            if not same:
+                ctx.disagreements_checked += 1
+                ctx.broken_tie('FieldsUnknown generation model and implementation disagree (%s engine)' % inner['engine'],
+                               {'world': w, 'index': oi, 'impl': {k: res.get(k) for k in ('ok', 'err', 'class_name', 'unknown_keys')}, 'model': mo})
+        # history bookkeeping for the F10 region: what an ignore-policy load of the default engine caches negatively
+        if not v1 and not spec['raise'] and 'ok' in res:
+            for d in op['docs']:
+                seen_lax.update(level_unknown(spec, d, ms))
+        elif not v1 and not spec['raise']:
+            for d in op['docs']:
+                seen_lax.update(level_unknown(spec, d, ms))
+
+
+# --------------------------------------------------------------------------- region C: dump settings x CatchAll
+COND_OPS = ['EQ', 'NE', 'LT', 'LE', 'GT', 'GE', 'IS', 'IS_NOT', 'IS_TRUTHY', 'IS_FALSY']
+COND_VALUES = [None, True, False, 0, 1, 5, -1, '', 'x', {}, [], 3.5, '@captured']
+KEY_TRANSFORMS = [None, 'CAMEL', 'PASCAL', 'LISP', 'SNAKE', 'NONE']
+
+
+def gen_cond(r):
+    op = r.choice(COND_OPS)
+    if op in ('IS_TRUTHY', 'IS_FALSY'):
+        return {'op': op}
+    if op in ('IS', 'IS_NOT'):
+        return {'op': op, 'val': r.choice([None, True, False])}      # identity with a singleton only (C11 covers the rest)
+    return {'op': op, 'val': r.choice(COND_VALUES)}
+
+
+def gen_dump_case(r, counter, pending, forced=None):
+    counter[0] += 1
+    engine = forced['engine'] if forced else r.choice(['v0', 'v1'])
+    used = set()
+    spec = {'name': 'D%d' % counter[0], 'engine': engine, 'raise': False, 'tag': None, 'catch': None, 'fields': []}
+    for _ in range(r.randint(1, 3)):
+        spec['fields'].append({'name': gen_name(r, used), 'kind': 'int', 'default': (r.choice([-1, 0, 3]) if r.random() < 0.5 else None),
+                               'aliases': None, 'path': None, 'skip_if': (gen_cond(r) if r.random() < 0.2 else None)})
+    req = [f['name'] for f in spec['fields'] if f['default'] is None]
+    opt = [f['name'] for f in spec['fields'] if f['default'] is not None]
+    kind = forced['kind'] if forced else r.choice(['required', 'default', 'default', 'factory'])
+    cname = r.choice(['extras', 'rest', 'unknown_stuff'])
+    spec['catch'] = {'name': cname, 'default': kind == 'default', 'factory': kind == 'factory',
+                     'skip_if': (gen_cond(r) if r.random() < 0.3 else None)}
+    if kind == 'required':
+        req.insert(r.randint(0, len(req)), cname)
+    elif kind == 'factory' and engine == 'v1':
+        opt.insert(0, cname)                      # outside the F91 region
+    else:
+        opt.insert(r.randint(0, len(opt)), cname)
+    spec['order'] = req + opt
+    meta = {'skip_if': gen_cond(r) if r.random() < 0.55 else None,
+            'skip_defaults_if': gen_cond(r) if r.random() < 0.35 else None,
+            'skip_defaults': r.choice([None, None, True, False]),
+            'key_transform': r.choice(KEY_TRANSFORMS)}
+    doc = gen_base_doc(r, spec)
+    for _ in range(r.choice([0, 1, 1, 2, 3])):
+        kind_, k = gen_extra_key(r, spec)
+        if kind_ in ('sentinel', 'tagkey') or k in doc or strip_key(k) in {strip_key(n) for n in ordered_fields(spec)}:
+            continue
+        doc[k] = copy.deepcopy(r.choice(EXTRA_VALUES))
+    if forced:
+        # one operator of the table at one placement; the document has captured pairs
+        cond = {'op': forced['op']} if forced['op'] in ('IS_TRUTHY', 'IS_FALSY') else \
+               {'op': forced['op'], 'val': r.choice([None, True, False]) if forced['op'] in ('IS', 'IS_NOT') else r.choice(COND_VALUES)}
+        meta['skip_if'] = cond if forced['place'] == 'skip_if' else None
+        meta['skip_defaults_if'] = cond if forced['place'] == 'skip_defaults_if' else None
+        spec['catch']['skip_if'] = cond if forced['place'] == 'own' else None
+        if not any(classify(spec, k) == 'unknown' for k in doc):
+            doc[gen_key(r, set(doc))] = copy.deepcopy(r.choice(EXTRA_VALUES))
+    names = ordered_fields(spec)
+    calls = []
+    for _ in range(r.choice([1, 2, 3])):
+        ex = r.choice([None, None, None, [], [cname], r.sample(names, r.randint(1, len(names))), ['no_such_field']])
+        calls.append({'exclude': ex, 'skip_defaults': r.choice([None, None, True, False])})
+    return {'cls': spec, 'meta': meta, 'doc': doc, 'calls': calls}
+
+
+def py_cond(c, v, captured):
+    """truth of a condition on a value with plain Python operators (independent of the library); 'E' = TypeError"""
+    import operator
+    op = c['op']
+    if op == 'IS_TRUTHY':
+        return bool(v)
+    if op == 'IS_FALSY':
+        return not v
+    cv = c['val']
+    if cv == '@captured':
+        cv = captured
+    try:
+        return bool({'EQ': operator.eq, 'NE': operator.ne, 'LT': operator.lt, 'LE': operator.le, 'GT': operator.gt,
+                     'GE': operator.ge, 'IS': operator.is_, 'IS_NOT': operator.is_not}[op](v, cv))
+    except TypeError:
+        return 'E'
+
+
+def dump_key_ref(name, kt):
+    return {None: lambda: ref_casing(name, 'Camel'), 'CAMEL': lambda: ref_casing(name, 'Camel'), 'PASCAL': lambda: ref_casing(name, 'Pascal'),
+            'LISP': lambda: ref_casing(name, 'Kebab'), 'SNAKE': lambda: name, 'NONE': lambda: name}[kt]()
+
+
+def dump_reference(case, call, captured):
+    """instance values, default table and the field-level decisions the documentation gives (C11 rules); returns
+    (values, catch_field_skipped | 'E', some consulted test raises TypeError)"""
+    spec, meta = case['cls'], case['meta']
+    c = spec['catch']
+    vals, dflt = {}, {}
+    for f in spec['fields']:
+        key = next((k for k in case['doc'] if classify(spec, k) == ('field', f['name'])), None)
+        vals[f['name']] = case['doc'][key] if key is not None else f['default']
+        if f['default'] is not None:
+            dflt[f['name']] = f['default']
+    if c['default']:
+        dflt[c['name']] = None
+        vals[c['name']] = dict(captured) if captured else None
+    else:
+        vals[c['name']] = dict(captured)
+        if c.get('factory'):
+            dflt[c['name']] = {}
+    sd = call['skip_defaults'] if call.get('skip_defaults') is not None else bool(meta.get('skip_defaults') or meta.get('skip_defaults_if') is not None)
+    ex = set(call['exclude']) if call.get('exclude') is not None else set()
+    tests = {}          # (cond id, field) -> True / False / 'E'   (oracle of the model; ids: 0 skip_if, 1 skip_defaults_if, 2+i own)
+    any_error = False
+    catch_skipped = None
+    for i, n in enumerate(ordered_fields(spec)):
+        own = c.get('skip_if') if n == c['name'] else next(f for f in spec['fields'] if f['name'] == n).get('skip_if')
+        for cid, cond in ((0, meta.get('skip_if')), (1, meta.get('skip_defaults_if')), (2 + i, own)):
+            if cond is not None:
+                tests[(cid, n)] = py_cond(cond, vals[n], captured)
+        skipped = n in ex
+        if not skipped and sd and n in dflt:
+            t = tests[(1, n)] if meta.get('skip_defaults_if') is not None else (vals[n] == dflt[n])
+            if t == 'E':
+                any_error = True
+                if n == c['name']:
+                    catch_skipped = 'E'
+                continue
+            skipped = t
+        if n == c['name']:
+            catch_skipped = skipped or (n in dflt and vals[n] == dflt[n])
+        elif not skipped:
+            cond_id = (2 + i) if own is not None else (0 if meta.get('skip_if') is not None else None)
+            if cond_id is not None and tests[(cond_id, n)] == 'E':
+                any_error = True
+    return vals, dflt, tests, sd, catch_skipped, any_error
+
+
+def dump_model_expr(case, call, captured):
+    spec, meta = case['cls'], case['meta']
+    c = spec['catch']
+    vals, dflt, tests, sd, _, _ = dump_reference(case, call, captured)
+    names = ordered_fields(spec)
+    tbl = coq_list(['((%d, %s), %s)' % (cid, coq_str(n), {True: 'Some true', False: 'Some false', 'E': 'None'}[t])
+                    for (cid, n), t in sorted(tests.items())])
+    isd = coq_list([coq_str(n) for n in names if n in dflt and vals[n] == dflt[n]])
+    own = []
+    for i, n in enumerate(names):
+        o = c.get('skip_if') if n == c['name'] else next(f for f in spec['fields'] if f['name'] == n).get('skip_if')
+        if o is not None:
+            own.append('(%s, %d)' % (coq_str(n), 2 + i))
+    inst = []
+    for n in names:
+        v = vals[n]
+        if n == c['name'] and isinstance(v, dict):
+            inst.append('(%s, KCatch %s)' % (coq_str(n), coq_list(['(%s, %s)' % (coq_str(k), coq_str(raw_of(x))) for k, x in v.items()])))
+        else:
+            inst.append('(%s, KV %s)' % (coq_str(n), coq_str(raw_of(v))))
+    return ('rundump %s %s %s %s %s %s %s %s %s %s %s %s' %
+            (tbl, isd, coq_list([coq_str(n) for n in names]),
+             coq_list(['(%s, %s)' % (coq_str(n), coq_str(dump_key_ref(n, meta.get('key_transform')))) for n in names]),
+             coq_str(c['name']), coq_list([coq_str(n) for n in names if n in dflt]),
+             coq_opt('0' if meta.get('skip_if') is not None else None), coq_opt('1' if meta.get('skip_defaults_if') is not None else None),
+             coq_list(own), coq_opt(coq_list([coq_str(x) for x in call['exclude']]) if call.get('exclude') is not None else None),
+             'true' if sd else 'false', coq_list(inst)))
+
+
+def check_dump_case(ctx, case, res, mlines, ms, resolved):
+    spec, meta = case['cls'], case['meta']
+    c = spec['catch']
+    sig = json.dumps({k: case[k] for k in ('cls', 'meta', 'doc')}, sort_keys=True)
+    captured = {k: v for k, v in case['doc'].items() if classify(spec, k, ms) == 'unknown'}
+    where = '%s engine, class %s (CatchAll %s%s), Meta %s, document %s' % (
+        spec['engine'], spec['name'], 'default_factory' if c.get('factory') else ('with default' if c['default'] else 'required'),
+        ', own SkipIf %s' % json.dumps(c['skip_if']) if c.get('skip_if') else '',
+        json.dumps({k: v for k, v in meta.items() if v is not None}), json.dumps(case['doc'])[:200])
+    # the load itself
+    lo = res['load']
+    try:
+        exp = ref_load(spec, case['doc'], ms)
+    except RefError:
+        exp = None
+    bad = None
+    if exp is not None:
+        # the view cannot tell a loaded value that equals the default from the default: same normalisation on both sides
+        for f in spec['fields']:
+            if f['default'] is not None and exp['fields'].get(f['name']) == str(f['default']):
+                exp['fields'][f['name']] = 'DEFAULT'
+    if 'ok' not in lo:
+        bad = 'expected a successful load, got %s: %s' % (lo.get('err'), lo.get('msg'))
+    else:
+        g = impl_view(lo['ok'], spec)
+        if json.dumps(g.get('fields'), sort_keys=True) != json.dumps(exp['fields'], sort_keys=True):
+            bad = 'mapped fields %r, expected %r' % (g.get('fields'), exp['fields'])
+        elif 'default' in exp['catch'] and g.get('catch') != exp['catch']:
+            bad = 'catch-all %r, expected the default to be kept' % (g.get('catch'),)
+        elif 'items' in exp['catch'] and ('items' not in (g.get('catch') or {}) or
+                                          sorted(map(json.dumps, g['catch']['items'])) != sorted(map(json.dumps, exp['catch']['items']))):
+            bad = 'catch-all %r, expected exactly %r' % (g.get('catch'), exp['catch'])
+    if bad:
+        ctx.count(1, key='d:%s|load' % sig, nontrivial=bool(captured))
+        ctx.violation('%s: %s' % (where, bad), {'kind': 'dump', 'case': case, 'index': -1})
+        return
+    dump_keys = {dump_key_ref(f['name'], meta.get('key_transform')) for f in spec['fields']}
+    for ci, (call, out) in enumerate(zip(case['calls'], res['calls'])):
+        vals, dflt, tests, sd, catch_skipped, any_error = dump_reference(case, call, captured)
+        ctx.count(1, key='d:%s|%d|%s' % (sig, ci, json.dumps(call)), nontrivial=bool(captured))
+        ctx.hist('dump_catch_field', 'skipped' if catch_skipped is True else ('TypeError' if catch_skipped == 'E' else ('emitted' if captured else 'empty')))
+        for k in ('skip_if', 'skip_defaults_if'):
+            if meta.get(k) is not None:
+                ctx.hist('dump_meta_' + k, '%s on captured=%s' % (meta[k]['op'], py_cond(meta[k], vals[c['name']], captured)))
+        bad = None
+        if 'items' not in out:
+            if not (out.get('err') == 'TypeError' and any_error):
+                bad = 'to_dict raised %s (%s) although no consulted skip condition raises' % (out.get('err'), out.get('msg'))
+        elif any_error and catch_skipped == 'E':
+            bad = None            # C11: which test is consulted first is not fixed by the documentation
+        else:
+            d = dict((k, v) for k, v in out['items'])
+            others = [k for k in d if k not in dump_keys]
+            if catch_skipped is True:
+                if others:
+                    bad = 'the CatchAll field is excluded / skipped as a defaulted field, but %r were written' % (others,)
+            else:
+                for k, v in captured.items():
+                    if k in dump_keys:
+                        continue
+                    if k not in d or d[k] != v or type(d[k]) is not type(v):
+                        bad = 'captured pair %r: %r missing from / changed in to_dict output %r' % (k, v, d)
+                        break
+                if not bad and sorted(others) != sorted(k for k in captured if k not in dump_keys):
+                    bad = 'top-level keys %r written besides the fields, expected exactly the captured keys %r' % (others, sorted(captured))
+        if bad:
+            ctx.violation('%s, asdict(%s): %s' % (where, json.dumps(call), bad), {'kind': 'dump', 'case': case, 'index': ci})
+        if mlines is not None:
+            ctx.traces_validated += 1
+            m = mlines[ci]
+            if m == 'ERR':
+                same = 'items' not in out and out.get('err') in ('TypeError', 'AttributeError')
+            else:
+                mitems = []
+                for part in (m.split(',') if m else []):
+                    k, v = part.split('=', 1)
+                    mitems.append([bytes.fromhex(k).decode(), json.loads(bytes.fromhex(v[1:]).decode())])
+                same = 'items' in out and json.dumps(mitems) == json.dumps(out['items'])
+            if not same:
+                ctx.disagreements_checked += 1
+                ctx.broken_tie('FieldsUnknown dump model and implementation disagree (%s engine)' % spec['engine'],
+                               {'case': case, 'call': call, 'impl': out, 'model': m})
+
+
 # --------------------------------------------------------------------------- run
 def build_cases(ctx):
     r = ctx.sub_rng('cases')
     n = 900 if ctx.tier == "quick" else 8000
     counter = [0]
     cases, pending = [], []
+    sysb = systematic_binds()
     for _ in range(n):
-        engine = r.choice(['v0', 'v1'])
-        raise_ = r.random() < 0.3
+        # the systematic bind programs (RAISE written by the k-th bind in every spelling) are consumed first
+        engine = sysb[-1][0] if sysb else r.choice(['v0', 'v1'])
+        raise_ = True if sysb else r.random() < 0.3
         spec = gen_level(r, engine, r.choice([0, 1, 1]), counter, raise_, True)
+        if sysb or r.random() < 0.5:
+            # region A: the policy reaches the generator through a PROGRAM of Meta binds (entry point x spelling x order)
+            spec['binds'] = gen_binds(r, engine, raise_)
+            finish_binds(spec)
         stats = []
         base = gen_base_doc(r, spec)
         d1 = add_extras(r, spec, base, pending, stats)
@@ -675,14 +1354,54 @@ def build_cases(ctx):
                     alone[f['name']] = add_extras(r, f['cls'], gen_base_doc(r, f['cls']), pending, [])
                 # the sentinel key in an ALONE load poisons the class (F41, variant c of the witness): kept out of the histories
                 alone[f['name']].pop(SENTINEL, None)
+        if sysb and spec.get('binds') and not alone:
+            spec['binds'] = sysb.pop()[1]
+            finish_binds(spec)
         cases.append({'cls': spec, 'loads': loads, 'hist': hist, 'extra_kinds': stats,
                       'pre': {'dump': r.random() < 0.4, 'alone': alone},
-                      'entry': r.choice(['fromdict', 'fromdict', 'jsonwizard', 'from_json', 'fromlist'])})
+                      'entry': (r.choice(['fromdict', 'fromlist']) if spec.get('binds') and spec['binds']['base'] == 'plain'
+                                else r.choice(['fromdict', 'fromdict', 'jsonwizard', 'from_json', 'fromlist']))})
     return cases, pending
+
+
+def build_gen_worlds(ctx, pending):
+    r = ctx.sub_rng('gen')
+    counter = [0]
+    worlds = []
+    import itertools
+    # systematic: engine x CatchAll kind x every order of first use of (alone, root 0, root 1)
+    for engine in ('v1', 'v0'):
+        for kind in ('default', 'required', 'none'):
+            for order in itertools.permutations([-1, 0, 1]):
+                w = gen_world(r, counter, forced={'engine': engine, 'kind': kind})
+                gen_world_ops(r, w, pending, order=order)
+                worlds.append(w)
+    for _ in range(130 if ctx.tier == 'quick' else 1500):
+        w = gen_world(r, counter)
+        gen_world_ops(r, w, pending)
+        worlds.append(w)
+    return worlds
+
+
+def build_dump_cases(ctx, pending):
+    r = ctx.sub_rng('dump')
+    counter = [0]
+    out = []
+    forced = [{'engine': e, 'kind': k, 'op': op, 'place': pl} for op in COND_OPS for pl in ('skip_if', 'skip_defaults_if', 'own')
+              for e, k in (('v0', 'default'), ('v1', 'default'), ('v0', 'required'), ('v1', 'required'))]
+    for i in range(len(forced) + (160 if ctx.tier == 'quick' else 2500)):
+        c = gen_dump_case(r, counter, pending, forced=forced[i] if i < len(forced) else None)
+        for k in list(c['doc']):
+            if isinstance(classify(c['cls'], k), tuple) and r.random() < 0.7:
+                c['doc'][k] = r.choice([0, 1, 3, 5, -1, 50])          # values that equal a default / are falsy, so the rules vary
+        out.append(c)
+    return out
 
 
 def run(ctx):
     cases, pending = build_cases(ctx)
+    worlds = build_gen_worlds(ctx, pending)
+    dcases = build_dump_cases(ctx, pending)
 
     # ---- phase 0: ambiguous near-misses are classified by the Coq resolution model -----------
     ms = {}
@@ -707,11 +1426,23 @@ def run(ctx):
         for f in c['cls']['fields']:
             if f['name'] in c['pre']['alone']:
                 c['pre']['alone'][f['name']] = drop_known_extras(f['cls'], c['pre']['alone'][f['name']], ms)
+    for w in worlds:
+        for op in w['ops']:
+            op['docs'] = [drop_known_extras(w['inner'], d, ms) for d in op['docs']]
+    for c in dcases:
+        # the comparison value '@captured' stands for (a copy of) the dict the CatchAll field will hold
+        captured = {k: v for k, v in c['doc'].items() if classify(c['cls'], k, ms) == 'unknown'}
+        conds = [c['meta'].get('skip_if'), c['meta'].get('skip_defaults_if'), c['cls']['catch'].get('skip_if')] + \
+                [f.get('skip_if') for f in c['cls']['fields']]
+        for cond in conds:
+            if cond is not None and cond.get('val') == '@captured':
+                cond['val'] = copy.deepcopy(captured)
 
     # ---- implementation ------------------------------------------------------------------------
     impl = ctx.impl('c10', {'cases': [{'cls': c['cls'], 'loads': c['loads'], 'pre': c['pre'], 'entry': c['entry']} for c in cases],
-                            'witness': [{'kind': 'F19'}, {'kind': 'F41'}, {'kind': 'F10alone'}]})
-    w19, w22, w10 = impl['witness']
+                            'witness': [{'kind': 'F19'}, {'kind': 'F41'}, {'kind': 'F10alone'}, {'kind': 'F91'}],
+                            'gen': worlds, 'dump': dcases})
+    w19, w22, w10, w91 = impl['witness']
     resolved = set()     # findings whose witness no longer fails: the faithful (defective) model is not compared in their region
     if ctx.finding('F19-v1-shared-top-level-key'):
         still = bool(w19.get('accepted_unknown'))
@@ -731,6 +1462,15 @@ def run(ctx):
         ctx.count(1, key='witness:F10alone', nontrivial=True)
         if not still:
             resolved.add('F10-C10-alone-first-negative-cache')
+    if ctx.finding('F91-v1-catchall-default-factory-position'):
+        still = bool(w91.get('mapped_field_changed') or w91.get('known_doc_rejected'))
+        ctx.known_finding('F91-v1-catchall-default-factory-position', still_fails=still)
+        ctx.count(1, key='witness:F91', nontrivial=True)
+        if not still:
+            resolved.add('F91-v1-catchall-default-factory-position')
+    if not w91.get('factory_first_ok', True):
+        ctx.violation('v1 engine: a CatchAll field with default_factory declared BEFORE the defaulted fields no longer receives exactly '
+                      'the unknown pairs', {'kind': 'F91'})
     if not w10.get('unseen_key_rejected', True):
         ctx.violation('default engine: nested class loaded alone first, then a strict recursive outer class: an unknown nested key that '
                       'was never seen before is accepted', {'kind': 'F10alone'})
@@ -758,7 +1498,7 @@ def run(ctx):
                     if f['cls']['engine'] == 'v0' and f['name'] in c['pre']['alone']:
                         # the nested class was loaded ALONE first (default policy), same per-class key cache
                         aflat, _ = level_docs(f['cls'], [c['pre']['alone'][f['name']]], ms)
-                        exprs1.append('run0p [] %s %s %s %s' % (coq_cls(dict(f['cls'], **{'raise': False})), coq_docs(aflat)[1:-1],
+                        exprs1.append('run0p [] %s %s %s %s' % (coq_cls(dict(f['cls'], **{'raise': False}), configured=False), coq_docs(aflat)[1:-1],
                                                               coq_cls(f['cls']), coq_docs(cflat)))
                     else:
                         exprs1.append(level_expr(f['cls'], cflat, []))
@@ -794,6 +1534,10 @@ def run(ctx):
                                                   '/tag' if spec['tag'] else ''))
         ctx.hist('history', ('alone-first+' if c['pre']['alone'] else '') + ('dump-first+' if c['pre']['dump'] else '') + c['hist'])
         ctx.hist('entry_point', c['entry'])
+        if spec.get('binds'):
+            ctx.hist('bind_program', spec['binds']['base'] + ':' + '>'.join(
+                op['via'] + ('+' + ('E' if 'enum' in op['action'] else 'S' if op['action'].get('str') else 'N') if 'action' in op else '')
+                + ('+r' if 'raise' in op else '') for op in spec['binds']['ops']))
         ctx.hist('depth', 2 if any(f['kind'] == 'nested' for f in spec['fields']) else 1)
         for k in c['extra_kinds']:
             ctx.hist('extra_key_kind', k)
@@ -835,8 +1579,52 @@ def run(ctx):
                     if n_dis <= 5:
                         ctx.broken_tie('FieldsUnknown model and implementation disagree (%s engine)' % spec['engine'],
                                        {'cls': spec, 'loads': c['loads'], 'index': j, 'impl': io, 'model': mo})
+    # ---- region B: generations ------------------------------------------------------------------
+    glines = None
+    if model_ok:
+        try:
+            glines = ctx.coq([gen_model_expr(w, ms) for w in worlds], ['FieldsUnknown'], prelude=PRELUDE, tag='gen')
+        except Exception as ex:
+            ctx.broken_tie('model evaluation failed (generations): %s' % str(ex)[:400])
+    for wi, w in enumerate(worlds):
+        ctx.hist('gen_world', '%s/%s/roots=%s' % (w['inner']['engine'],
+                                                   ('factory' if w['inner']['catch'].get('factory') else 'catch_default' if w['inner']['catch']['default'] else 'catch')
+                                                   if w['inner']['catch'] else 'nocatch', '+'.join(rt['pos'] + ('!' if rt['raise'] else '') for rt in w['roots'])))
+        ctx.hist('gen_first_use', '>'.join(dict.fromkeys('alone' if op['root'] < 0 else 'root%d' % op['root'] for op in w['ops'])))
+        check_gen_world(ctx, w, impl['gen'][wi], glines[wi] if glines is not None else None, ms, resolved)
+    # ---- region C: dump settings x CatchAll ----------------------------------------------------------
+    dlines = None
+    if model_ok:
+        try:
+            exprs, owner = [], []
+            for di, c in enumerate(dcases):
+                captured = {k: v for k, v in c['doc'].items() if classify(c['cls'], k, ms) == 'unknown'}
+                for call in c['calls']:
+                    exprs.append(dump_model_expr(c, call, captured)); owner.append(di)
+            outs = ctx.coq(exprs, ['FieldsUnknown'], prelude=PRELUDE, tag='dump')
+            dlines = {}
+            for di, o in zip(owner, outs):
+                dlines.setdefault(di, []).append(o)
+        except Exception as ex:
+            ctx.broken_tie('model evaluation failed (dump): %s' % str(ex)[:400])
+    for di, c in enumerate(dcases):
+        ctx.hist('dump_case', '%s/%s/kt=%s' % (c['cls']['engine'], 'factory' if c['cls']['catch'].get('factory') else
+                                               ('catch_default' if c['cls']['catch']['default'] else 'catch'), c['meta'].get('key_transform')))
+        check_dump_case(ctx, c, impl['dump'][di], dlines.get(di) if dlines is not None else None, ms, resolved)
     for c, rs in list(zip(cases, impl['cases']))[:3]:
         ctx.sample({'class': c['cls'], 'history': c['loads'], 'impl_outcomes': [(r.get('ok') or {k: r.get(k) for k in ('err', 'class_name', 'unknown_keys')}) for r in rs]})
+
+
+class Ctx_probe:
+    """collects the violations of one replayed case (regions of open findings are still honoured)"""
+    def __init__(self, ctx):
+        self.ctx, self.found, self.traces_validated, self.disagreements_checked = ctx, [], 0, 0
+
+    def count(self, *a, **k): pass
+    def hist(self, *a, **k): pass
+    def broken_tie(self, *a, **k): pass
+    def is_open_region(self, fid): return self.ctx.is_open_region(fid)
+    def violation(self, what, obj): self.found.append(what)
 
 
 def replay(ctx, obj):
@@ -851,7 +1639,28 @@ def replay(ctx, obj):
             if bad and j == obj.get('index', j):
                 ok = False
         return ok
+    if obj.get('kind') == 'gen':
+        ms = {(tuple(a), b): c for a, b, c in obj.get('model_says', [])}
+        res = ctx.impl('c10', {'gen': [obj['world']]})['gen'][0]
+        probe = Ctx_probe(ctx)
+        check_gen_world(probe, obj['world'], res, None, ms, set())
+        for v in probe.found:
+            print(v)
+        print('property holds on every operation of the history' if not probe.found else '%d failing operation(s)' % len(probe.found))
+        return not probe.found
+    if obj.get('kind') == 'dump':
+        res = ctx.impl('c10', {'dump': [obj['case']]})['dump'][0]
+        probe = Ctx_probe(ctx)
+        check_dump_case(probe, obj['case'], res, None, {}, set())
+        for v in probe.found:
+            print(v)
+        print('property holds' if not probe.found else '%d failing call(s)' % len(probe.found))
+        return not probe.found
     fid = obj.get('finding') or ''
+    if obj.get('kind') == 'F91' or fid.startswith('F91'):
+        w = ctx.impl('c10', {'witness': [{'kind': 'F91'}]})['witness'][0]
+        print('witness outcome: %s' % json.dumps(w)[:600])
+        return bool(w.get('factory_first_ok')) and (obj.get('kind') == 'F91' or not (w.get('mapped_field_changed') or w.get('known_doc_rejected')))
     if obj.get('kind') == 'F10alone' or fid.startswith('F10'):
         w = ctx.impl('c10', {'witness': [{'kind': 'F10alone'}]})['witness'][0]
         print('witness outcome: %s' % json.dumps(w)[:600])
